@@ -138,6 +138,19 @@ class LocalHashFileDB(HashFileDB):
 
         return stat.S_IMODE(mode) == self.CACHE_MODE
 
+    def add(self, path, fs, oid, **kwargs):
+        # A file under an object's name that is not read-only was never vouched for by
+        # a completed add (e.g. what an interrupted one left behind): re-hash it, so
+        # that a mismatching file is discarded and copied again instead of being
+        # skipped as "already there" and then protected.
+        for _oid in [oid] if isinstance(oid, str) else oid:
+            if not self.is_protected(self.oid_to_path(_oid)):
+                try:
+                    self.check(_oid, check_hash=True)
+                except (ObjectFormatError, FileNotFoundError):
+                    pass
+        return super().add(path, fs, oid, **kwargs)
+
     def set_exec(self, path):
         mode = os.stat(path).st_mode | stat.S_IEXEC
         try:
